@@ -27,21 +27,22 @@ vars == <<c>>
 CaseFile == IOEnv.CASE_FILE
 Table == Core \o Extra(NExtra, Seed)
 NStmt == Len(Table)
-NAll == NStmt + Len(Exprs)
+AllExprs == Exprs \o FoldExprs
+NAll == NStmt + Len(AllExprs)
 Kind(sid) == IF sid <= NStmt THEN "stmt" ELSE "expr"
-Text(sid) == IF sid <= NStmt THEN Table[sid].text ELSE Exprs[sid - NStmt]
-IsRich(sid) == IF sid <= NStmt THEN Table[sid].rich ELSE TRUE
+Text(sid) == IF sid <= NStmt THEN Table[sid].text ELSE AllExprs[sid - NStmt]
+IsRich(sid) == IF sid <= NStmt THEN Table[sid].rich ELSE sid <= NStmt + Len(Exprs)
 IsCore(sid) == sid <= Len(Core) \/ sid > NStmt
 PreFor(sid) == IF PreScope = "all" THEN TRUE ELSE IF PreScope = "core" THEN IsCore(sid)
                ELSE IF PreScope = "rich" THEN IsRich(sid) ELSE FALSE
 
 \* must agree with harness/suite_c14.go
 PkgRewrites == {"RewriteRegexConditions", "RewriteDistinct", "RewriteTimeFields", "SetTimeRange", "GroupByInterval"}
-StmtRewrites == PkgRewrites \cup {"RewriteMod", "RewriteNop", "RewriteExprCond", "WalkMutateAll", "ReverseFields"}
-StmtDerived == {"Reduce", "ReduceNil", "RewriteFields", "EvalCond", "EvalType", "String", "ColumnNames",
+StmtRewrites == PkgRewrites \cup {"RewriteMod", "RewriteNop", "RewriteExprCond", "RewriteExprDrop", "WalkMutateAll", "ReverseFields"}
+StmtDerived == {"Reduce", "ReduceNil", "ReduceZone", "RewriteFields", "EvalCond", "EvalType", "String", "ColumnNames",
                 "RequiredPrivileges", "Names", "ConditionExpr"}
-ExprRewrites == {"RewriteExpr", "RewriteMod", "RewriteNop", "WalkMutateAll"}
-ExprDerived == {"Reduce", "ReduceNil", "Eval", "EvalType", "String", "Names", "ConditionExpr"}
+ExprRewrites == {"RewriteExpr", "RewriteExprDrop", "RewriteMod", "RewriteNop", "WalkMutateAll"}
+ExprDerived == {"Reduce", "ReduceNil", "ReduceZone", "Eval", "EvalType", "String", "Names", "ConditionExpr"}
 \* EngineFlags: the statement-level flags the parser never sets (OmitTime, StripName, EmitName, Dedupe) and a
 \* SystemIterator on the first source measurement, as the query engine sets them before it clones
 Pres == PkgRewrites \cup {"EngineFlags"}
